@@ -87,7 +87,11 @@ def _usage(draw, provs):
             used[(i, rc)] = used.get((i, rc), 0) + a
         if alloc:
             consumers.append({'uuid': gen.CONS[c], 'alloc': [
-                [i, rc, a] for (i, rc), a in sorted(alloc.items())]})
+                [i, rc, a] for (i, rc), a in sorted(alloc.items())],
+                # written at an old microversion => no consumer type
+                'ver': draw(st.sampled_from([39, 39, 37, 12])),
+                'project': draw(st.sampled_from(gen.PROJECTS)),
+                'user': draw(st.sampled_from(gen.USERS))})
     return consumers
 
 
@@ -242,10 +246,16 @@ def build_state(svc, desc, base):
         for (i, rc, a) in c['alloc']:
             u = desc['providers'][i]['uuid']
             allocs.setdefault(u, {'resources': {}})['resources'][rc] = a
-        r = svc.request('PUT', '/allocations/' + c['uuid'], version='1.39',
-                        body={'allocations': allocs, 'project_id': 'proj-a',
-                              'user_id': 'user-a', 'consumer_generation': None,
-                              'consumer_type': 'INSTANCE'})
+        ver = c.get('ver', 39)
+        body = {'allocations': allocs,
+                'project_id': c.get('project', 'proj-a'),
+                'user_id': c.get('user', 'user-a')}
+        if ver >= 28:
+            body['consumer_generation'] = None
+        if ver >= 38:
+            body['consumer_type'] = 'INSTANCE'
+        r = svc.request('PUT', '/allocations/' + c['uuid'],
+                        version='1.%d' % ver, body=body)
         if r.status != 204:
             refused += 1
     return refused
